@@ -187,7 +187,7 @@ func directLogin(w *World, fi, browser int, path string) (cookie string, panicke
 		return "", p
 	}
 	cookie = respCookie(r1)
-	ar := f.IdP.Authorize(respLocation(r1), browser)
+	ar := f.Authorize(respLocation(r1), browser)
 	if ar.Code == "" || cookie == "" {
 		return "", nil
 	}
